@@ -33,7 +33,7 @@ def gen_prog(rng, depth, ns_depth=0, in_ns=False):
             else:
                 out.append(("ns", rng.choice(NSS), gen_prog(rng, depth - 1, ns_depth + 1, True)))
         elif r < 0.82:
-            out.append(("scan", gen_prog(rng, depth - 1, 0, False), rng.randint(1, 3)))
+            out.append(("scan", gen_prog(rng, depth - 1, 0, False), rng.randint(1, 3), rng.random() < 0.3))
         elif r < 0.95:
             out.append(("vmap", gen_prog(rng, depth - 1, ns_depth, in_ns), rng.randint(2, 3), rng.random() < 0.5))
         else:
@@ -102,8 +102,9 @@ def build(G, prog):
             elif k == "scan":
                 def body(carry, i, s=s):
                     r = run(s[1], x, sidx + [i], lidx)
-                    return carry + r, r
-                c, outs = jax.lax.scan(body, jnp.zeros_like(x), jnp.arange(s[2], dtype=jnp.float32))
+                    return carry * 0.5 + r, r      # order-sensitive carry
+                c, outs = jax.lax.scan(body, jnp.zeros_like(x), jnp.arange(s[2], dtype=jnp.float32),
+                                       reverse=bool(len(s) > 3 and s[3]))
                 acc = acc + c
             elif k == "vmap":
                 vm = G.modular_vmap if s[3] else jax.vmap
@@ -231,9 +232,31 @@ def check_prog(G, ctx, prog, modes=("eager", "jit", "seed")):
         ctx.count("ns-around-scan")
 
 
+def wrapper_reuse(G, ctx):
+    """one state(f) wrapper called twice: the second call's dict holds only what the second call saved"""
+    import jax.numpy as jnp
+    from genjax.state import namespace, save, state
+
+    def f(x):
+        if jnp.ndim(x) == 0:
+            save(a=x + 1.0)
+            return x
+        namespace(lambda: save(b=x * 2.0), "n")()
+        return jnp.sum(x)
+
+    w = state(f)
+    r1, d1 = w(jnp.float32(1.0))
+    keys1 = sorted(d1)
+    r2, d2 = w(jnp.arange(3.0))
+    case = {"kind": "wrapper-reuse", "first": keys1, "second": sorted(d2)}
+    if keys1 != ["a"] or sorted(d2) != ["n"] or sorted(d2["n"]) != ["b"]:
+        ctx.property_failure(None, f"the dict returned by the second call of one state(f) wrapper holds {sorted(d2)}, it saved only n/b (first call returned {keys1})", case)
+    ctx.case(sample=case, nontrivial_key="wrapper-reuse")
+
+
 FIXED = [
     [("ns", "a", [("scan", [("tag", "x", 1)], 2)])],
-    [("tag", "x", 1), ("scan", [("tag", "x", 2), ("tag", "y", 3)], 3), ("tag", "y", 4)],
+    [("tag", "x", 1), ("scan", [("tag", "x", 2), ("tag", "y", 3)], 3, True), ("tag", "y", 4)],
     [("scan", [("ns", "a", [("tag", "x", 1)]), ("scan", [("tag", "y", 2)], 2)], 2)],
     [("ns", "a", [("tag", "x", 1)]), ("scan", [("ns", "a", [("tag", "y", 2)])], 2)],
     [("vmap", [("scan", [("tag", "x", 1)], 2)], 3, False), ("vmap", [("ns", "b", [("tag", "y", 2)])], 2, True)],
@@ -247,6 +270,7 @@ def shard(ctx, shard_i, n):
     G = impl.load()
     rng = random.Random(ctx.seed * 131 + shard_i)
     if shard_i == 0:
+        wrapper_reuse(G, ctx)
         for p in FIXED:
             check_prog(G, ctx, p)
     for _ in range(n):
